@@ -158,6 +158,7 @@ func xlateOracle(e string) string {
 
 var reNotEq = regexp.MustCompile(`!\(([^()\s]+) == ([^()\s]+)\)`)
 var reNotNeq = regexp.MustCompile(`!\(([^()\s]+) != ([^()\s]+)\)`)
+var reTimeAfter = regexp.MustCompile(`time\.After\(([a-z0-9]+),([a-z0-9]+)\)`)
 var reShiftConv = regexp.MustCompile(`conv<uint(64|32)?>\(([a-z0-9]+)\)`)
 
 // normExpr: spaces after commas removed, operands of commutative operators sorted, unsigned shift-count conversions dropped.
@@ -166,6 +167,7 @@ func normExpr(e string) string {
 	e = strings.ReplaceAll(e, "‹", "")
 	e = strings.ReplaceAll(e, "›", "")
 	e = reShiftConv.ReplaceAllString(e, "$2")
+	e = reTimeAfter.ReplaceAllString(e, "time.Before($2,$1)")
 	e = reNotEq.ReplaceAllString(e, "($1 != $2)")
 	e = reNotNeq.ReplaceAllString(e, "($1 == $2)")
 	return normTree(e)
@@ -215,6 +217,10 @@ func normTree(e string) string {
 						if a > b {
 							a, b = b, a
 						}
+					case ">":
+						a, b, op = b, a, "<"
+					case ">=":
+						a, b, op = b, a, "<="
 					}
 					return "(" + a + " " + op + " " + b + ")"
 				}
@@ -286,6 +292,7 @@ func (h *vxHarness) runOp(op, t1, t2 string, p1, p2 interface{}, intercept bool)
 	}
 	unary := f.Signature.Params().Len() == 1
 	var convs []string
+	mutated := ""
 	paths := h.m.explore(16, func() (ret mv, out mOutcome) {
 		defer func() {
 			if r := recover(); r != nil {
@@ -304,17 +311,30 @@ func (h *vxHarness) runOp(op, t1, t2 string, p1, p2 interface{}, intercept bool)
 		}
 		h.convOn = intercept
 		defer func() { h.convOn = false }()
+		b1 := h.typeOf(v1) + " " + h.payloadOf(v1)
 		if unary {
 			r, out := h.m.Call(f, h.mgr, v1)
 			convs = h.convLog
+			if a1 := h.typeOf(v1) + " " + h.payloadOf(v1); a1 != b1 && out.kind == "ok" {
+				mutated = fmt.Sprintf("the operand changes from %s to %s", b1, a1)
+			}
 			return r, out
 		}
 		v2 := h.variant(t2, p2)
 		if p, ok := v2.(*mv); ok {
 			h.names[p] = "v2"
 		}
+		b2 := h.typeOf(v2) + " " + h.payloadOf(v2)
 		r, out := h.m.Call(f, h.mgr, v1, v2)
 		convs = h.convLog
+		if out.kind == "ok" {
+			if a1 := h.typeOf(v1) + " " + h.payloadOf(v1); a1 != b1 {
+				mutated = fmt.Sprintf("the first operand changes from %s to %s", b1, a1)
+			}
+			if a2 := h.typeOf(v2) + " " + h.payloadOf(v2); a2 != b2 {
+				mutated = fmt.Sprintf("the second operand changes from %s to %s", b2, a2)
+			}
+		}
 		return r, out
 	})
 	var outs []opOutcome
@@ -348,6 +368,9 @@ func (h *vxHarness) runOp(op, t1, t2 string, p1, p2 interface{}, intercept bool)
 			oc.expr = h.payloadOf(tp[0])
 		}
 		outs = append(outs, oc)
+	}
+	if mutated != "" {
+		outs = append(outs, opOutcome{kind: "panic", why: "writes into its operand (" + mutated + "): operators return a new variant, the operands belong to the caller"})
 	}
 	return outs, convs
 }
@@ -474,7 +497,11 @@ func (c *Ctx) opsxRun() []*opsVerdict {
 								v.undec = where + ": " + oc.why
 							}
 						case "panic":
-							bad("%s panics: %s", where, oc.why)
+							if strings.HasPrefix(oc.why, "writes into") {
+								bad("%s %s", where, oc.why)
+							} else {
+								bad("%s panics: %s", where, oc.why)
+							}
 						case "neither":
 							bad("%s returns neither a result nor an error", where)
 						case "value":
@@ -563,6 +590,59 @@ func (c *Ctx) opsxRun() []*opsVerdict {
 							}
 						}
 						continue
+					}
+					if t1 == "Integer" || t1 == "Long" {
+						// two's complement: 0 - x is -x
+						for i := range values {
+							values[i].expr = strings.ReplaceAll(values[i].expr, "(0 - x)", "-x")
+						}
+					}
+					// a comparison cell may be computed in any logically equal way (b < a for a > b, less || equal,
+					// a relation object …): decided as a truth table over the possible orderings of x and c2
+					// (less, equal, greater; for the floating-point types also unordered = NaN)
+					if cmpWant, isCmp := cmpAtom(want); isCmp && spec.setter == "Boolean" {
+						orderings := []string{"<", "==", ">"}
+						if t1 == "Float" || t1 == "Double" {
+							orderings = append(orderings, "unordered")
+						}
+						decided := true
+						for _, ord := range orderings {
+							wantV := cmpTruth(cmpWant, ord)
+							found := false
+							for _, oc := range values {
+								consistent := true
+								for _, cd := range oc.conds {
+									k := strings.LastIndex(cd, "=")
+									val, ok := cmpEval(normExpr(cd[:k]), ord)
+									if !ok {
+										decided = false
+										consistent = false
+										break
+									}
+									if fmt.Sprint(val) != cd[k+1:] {
+										consistent = false
+										break
+									}
+								}
+								if !consistent {
+									continue
+								}
+								found = true
+								got, ok := cmpEval(oc.expr, ord)
+								if !ok || oc.tag != "Boolean" {
+									decided = false
+								} else if got != wantV {
+									bad("%s gives %v when x %s y; %s gives %v (result %s under %v)", where, got, map[string]string{"<": "is less than", "==": "equals", ">": "is greater than", "unordered": "and y are unordered (NaN)"}[ord], want, wantV, oc.expr, oc.conds)
+								}
+								break
+							}
+							if !found {
+								decided = false
+							}
+						}
+						if decided {
+							continue
+						}
 					}
 					// the defined outcome: the value path none of whose conditions is an undefined-operation test taken
 					matched := false
@@ -814,4 +894,88 @@ func init() {
 			}
 			return o.list
 		}})
+}
+
+// ---- comparison cells as truth tables over the orderings of x and c2 -------------------------------------
+
+var reCmpAtom = regexp.MustCompile(`^\((x|c2) (<|<=|==|!=) (x|c2)\)$`)
+
+// cmpAtom: e is a single comparison of x and c2 (after normalisation: <, <=, ==, !=).
+func cmpAtom(e string) ([3]string, bool) {
+	m := reCmpAtom.FindStringSubmatch(e)
+	if m == nil || m[1] == m[3] {
+		return [3]string{}, false
+	}
+	return [3]string{m[1], m[2], m[3]}, true
+}
+
+// cmpTruth: the truth of the comparison a OP b under the ordering of (x, c2).
+func cmpTruth(atom [3]string, ord string) bool {
+	a, op, b := atom[0], atom[1], atom[2]
+	if ord == "unordered" {
+		return op == "!="
+	}
+	// ordering of (a, b)
+	rel := ord
+	if a == "c2" && b == "x" {
+		switch ord {
+		case "<":
+			rel = ">"
+		case ">":
+			rel = "<"
+		}
+	}
+	switch op {
+	case "<":
+		return rel == "<"
+	case "<=":
+		return rel == "<" || rel == "=="
+	case "==":
+		return rel == "=="
+	default:
+		return rel != "=="
+	}
+}
+
+// cmpEval evaluates a boolean expression built from comparisons of x and c2 under an ordering.
+func cmpEval(e string, ord string) (bool, bool) {
+	e = strings.TrimSpace(e)
+	switch e {
+	case "true":
+		return true, true
+	case "false":
+		return false, true
+	}
+	if a, ok := cmpAtom(e); ok {
+		return cmpTruth(a, ord), true
+	}
+	if strings.HasPrefix(e, "!") {
+		v, ok := cmpEval(e[1:], ord)
+		return !v, ok
+	}
+	if strings.HasPrefix(e, "(") && matchingParen(e, 0) == len(e)-1 {
+		in := e[1 : len(e)-1]
+		depth := 0
+		for i := 0; i+4 <= len(in); i++ {
+			switch in[i] {
+			case '(':
+				depth++
+			case ')':
+				depth--
+			}
+			if depth == 0 && (strings.HasPrefix(in[i:], " && ") || strings.HasPrefix(in[i:], " || ")) {
+				l, ok1 := cmpEval(in[:i], ord)
+				r, ok2 := cmpEval(in[i+4:], ord)
+				if !ok1 || !ok2 {
+					return false, false
+				}
+				if in[i+1] == '&' {
+					return l && r, true
+				}
+				return l || r, true
+			}
+		}
+		return cmpEval(in, ord)
+	}
+	return false, false
 }
